@@ -132,23 +132,25 @@ Definition mk_proto (names : list string) (sp : spec)
     (edges : list (N * N)) (targets : list (N * bool * bool * option N)) (actions : list (N * bool))
     (exec : list (N * bool * bool * N * bool * option N)) (tape each : bool)
     (stop_handles : list N) (cont_stops : list (N * N)) (post : list (N * bool)) (abandons async : bool)
-    (res : list (N * bool * bool * bool * bool * bool * N * N)) (tidc pr : N) (keep : bool) (mt : option (N * N)) : proto :=
+    (res : list (N * bool * bool * bool * bool * bool * N * N)) (tidc pr : N) (keep : bool) (mt : option (N * N))
+    (fl : option (list (N * N * option N))) (abd : bool) : proto :=
   {| p_start := idx names (sp_start sp); p_abandon := idx names (sp_abandon sp);
      p_terminal := spec_terminal_n names sp; p_edges := edges; p_targets := targets; p_actions := actions;
      p_exec := exec; p_tape := tape; p_persist_each := each; p_stop_handles := stop_handles;
      p_cont_stops := cont_stops; p_post_actions := post; p_abandons := abandons; p_async := async;
-     p_resolve := res; p_tid_check := tidc; p_pr := pr; p_stop_keeps_payload := keep; p_meta := mt |}.
+     p_resolve := res; p_tid_check := tidc; p_pr := pr; p_stop_keeps_payload := keep; p_meta := mt;
+     p_follow := fl; p_abandon_direct := abd |}.
 
 Definition ic_proto : proto :=
-  mk_proto ic_names ic_spec ic_edges ic_targets ic_actions ic_exec false false [] [] [] true false ic_resolve 1%N (idx_from 0%N ic_msgs "problem-report") false None.
+  mk_proto ic_names ic_spec ic_edges ic_targets ic_actions ic_exec false false [] [] [] true false ic_resolve 1%N (idx_from 0%N ic_msgs "problem-report") false None None false.
 Definition pp_proto : proto :=
-  mk_proto pp_names pp_spec pp_edges pp_targets pp_actions pp_exec false true [] [] [] true false pp_resolve 2%N (idx_from 0%N pp_msgs "problem-report") false None.
+  mk_proto pp_names pp_spec pp_edges pp_targets pp_actions pp_exec false true [] [] [] true false pp_resolve 2%N (idx_from 0%N pp_msgs "problem-report") false None None false.
 (* introduce: follow-ups depend on stored participants/metadata: read from the op's tape (what the service did);
    Stop of a proposal still runs handle (md.rejected); Continue of a request without recipients is an error *)
 Definition intro_proto : proto :=
   mk_proto intro_names intro_spec intro_edges intro_targets intro_actions [] true false
            [idx_from 0%N intro_msgs "proposal"] [(idx_from 0%N intro_msgs "request", 0%N)] [] true false intro_resolve 0%N (idx_from 0%N intro_msgs "problem-report") true
-           (Some (idx_from 0%N intro_msgs "request", idx_from 0%N intro_opts "recipients")).
+           (Some (idx_from 0%N intro_msgs "request", idx_from 0%N intro_opts "recipients")) None false.
 
 (* DID Exchange / Connection: the generated targets carry the namespace ("my" = true), put in the v3 slot of the
    machine (these protocols have one version and no outbound handling); the generated action table lists the
@@ -157,9 +159,9 @@ Definition intro_proto : proto :=
 Definition ns_targets (l : list (N * bool * option N)) : list (N * bool * bool * option N) :=
   map (fun r => match r with (m, ns, x) => (m, ns, false, x) end) l.
 Definition didex_proto : proto :=
-  mk_proto didex_names didex_spec didex_edges (ns_targets didex_targets) [] [] true true [] [] didex_actions true true [] 0%N 99%N false None.
+  mk_proto didex_names didex_spec didex_edges (ns_targets didex_targets) [] [] true true [] [] didex_actions true true [] 0%N 99%N false None (Some didex_follow) true.
 Definition legacy_proto : proto :=
-  mk_proto legacy_names legacy_spec legacy_edges (ns_targets legacy_targets) [] [] true true [] [] legacy_actions false true [] 0%N 99%N false None.
+  mk_proto legacy_names legacy_spec legacy_edges (ns_targets legacy_targets) [] [] true true [] [] legacy_actions false true [] 0%N 99%N false None (Some legacy_follow) true.
 
 (* ---- which identifier of a wire message names the protocol instance (PUBLISHED rule, written by hand) ----
    DIDComm threading: thid names the thread; a message without thid starts a thread named by its own id; a thid without
@@ -229,3 +231,48 @@ Definition names_ok_b (names : list string) (sp : spec) : bool :=
 
 Definition wf_proto (p : proto) : bool :=
   terminal_stuck_b p && exec_terminal_b p && negb (terminal p (p_start p)) && negb (N.eqb (p_start p) 0).
+
+(* ---- wave 5: source-level obligations (go/ast tables of coq/gen/Gen_C09.v) ---- *)
+
+(* the state list the export hook enumerates (typed by hand in the hook) is exactly the set of state types the package
+   declares (every type with a CanTransitionTo method, by its Name(); noop left out): no state of states.go is outside
+   the executed tables *)
+Fixpoint str_mem (s : string) (l : list string) : bool :=
+  match l with [] => false | x :: r => String.eqb x s || str_mem s r end.
+Definition declared_listed_b (names declared : list string) : bool :=
+  forallb (fun s => str_mem s names) declared && forallb (fun s => str_mem s declared) names
+  && Nat.eqb (List.length names) (List.length declared).
+
+(* PUBLISHED follow-up rule of the two connection protocols (RFC 0023 / 0160), written by hand: which state is entered
+   right after which, by message type; every other (state, message type) the state accepts has no follow-up *)
+Definition didex_follow_spec : list (string * string * string) :=
+  [ ("invited", "invitation", "requested"); ("invited", "oob-invitation", "requested");
+    ("requested", "request", "responded");
+    ("responded", "response", "completed"); ("responded", "complete", "completed") ].
+Definition legacy_follow_spec : list (string * string * string) :=
+  [ ("invited", "invitation", "requested"); ("requested", "request", "responded");
+    ("responded", "response", "completed") ].
+
+(* the generated follow-up table: covers every (state, message type); each follow-up other than noop is the published
+   one, is a CanTransitionTo pair of the code (the chain can never stop at an invalid transition) and an edge of the
+   published graph; every published follow-up is in the table; terminal states have no follow-up *)
+Definition follow_refines_b (names msgs : list string) (sp : spec) (fs : list (string * string * string))
+    (edges : list (N * N)) (tbl : list (N * N * option N)) : bool :=
+  Nat.eqb (List.length tbl) (List.length names * List.length msgs) &&
+  forallb (fun c => forallb (fun m =>
+      existsb (fun r => match r with (c', m', _) => N.eqb c c' && N.eqb m m' end) tbl)
+      (map N.of_nat (seq 0 (List.length msgs)))) (map N.of_nat (seq 1 (List.length names))) &&
+  forallb (fun r => match r with (c, m, x) =>
+      match x with
+      | None | Some 0%N => true
+      | Some n =>
+          existsb (fun q => match q with (cs, ms, ns) =>
+             N.eqb (idx names cs) c && N.eqb (idx_from 0%N msgs ms) m && N.eqb (idx names ns) n end) fs
+          && existsb (pair_eqb (c, n)) edges && spec_edge names sp c n
+          && negb (memN c (spec_terminal_n names sp))
+      end end) tbl &&
+  forallb (fun q => match q with (cs, ms, ns) =>
+      match follow_tbl tbl (idx names cs) (idx_from 0%N msgs ms) with
+      | Some n => N.eqb n (idx names ns) && negb (N.eqb n 0)
+      | None => false
+      end end) fs.
